@@ -231,10 +231,6 @@ Proof.
 Qed.
 
 (* ---- the conversions of sc_options.c ---- *)
-Section Conv.
-Variable strtod : str -> Z * bool.
-Variable fmt16 : Z -> str.
-
 (* sc_iniparser_getint / getsizet on the text "%d" / "%llu" wrote *)
 Lemma ini_int_print_dec n : INT_MIN <= n <= INT_MAX -> ini_int (print_dec n) = (n, false).
 Proof.
@@ -273,6 +269,9 @@ Definition int_outcome (a : str) : option Z :=
 Definition size_outcome (a : str) : option Z :=
   let '(l, er) := strtol a in if (l <? 0) || er then None else Some l.
 
+Section Conv.
+Variable strtod : str -> Z * bool.
+
 Lemma apply_int w o k it a : it_type it = TInt ->
   let r := apply_item strtod w o k it (Some a) in
   match int_outcome a with
@@ -298,6 +297,8 @@ Proof.
   - rewrite !orb_true_r. cbn. split; reflexivity.
   - rewrite !orb_false_r. destruct (l <? 0); cbn; split; reflexivity.
 Qed.
+
+End Conv.
 
 (* the decimal text of n as option argument: accepted with value n iff n fits the variable's type *)
 Lemma int_outcome_dec n rest : (match rest with [] => True | c :: _ => digit_val c = 99 end) ->
@@ -326,5 +327,3 @@ Proof.
   rewrite orb_false_r.
   destruct (n <? 0) eqn:E3; destruct (0 <=? n) eqn:E5; destruct (n <=? 9223372036854775807) eqn:E6; try lia; reflexivity.
 Qed.
-
-End Conv.
